@@ -1,4 +1,8 @@
 mod clock;
+
+/// Verification hooks for the model clock.
+#[cfg(feature = "verif")]
+pub use clock::verif as clock_verif;
 mod market;
 mod pool;
 mod position;
